@@ -8,10 +8,11 @@
 //	                          wired as cmd/proxy; from then on t/q/r/qbad/rbad/cget are real HTTP requests
 //	                          through that proxy, see e2e.go)
 //	cget                      GET the configure endpoint (an API request passing through the tree)
-//	  NODE  := L <scope> LEAF | G <scope> <agg> <n> NODE*n | F <scope> COND <hasElse> NODE [NODE]
+//	  NODE  := L <scope> LEAF | G <scope> <agg> <n> NODE*n | F <scope> COND <hasElse> NODE [NODE] |
+//	           P <scope> <n> (<priority> NODE)*n        (priority.Group: no verifier, hides what is below it)
 //	  LEAF  := status <n> | header <name> <value> | method <m> | url <s> <h> <p> <q> | qs <k> <v> |
 //	           failure <msg> | ping <s> <h> <p> <q> | nop | fail
-//	  COND  := header <name> <value> | url <s> <h> <p> <q> | method <m>
+//	  COND  := header <name> <value> | url <s> <h> <p> <q> | method <m> | qs <k> <v>
 //	  scope := d (absent) | e ([]) | q | s | b
 //	t <api> <method> <scheme> <host> <path> <query> <frag> <reqhdrs> <status> <reshdrs>
 //	                          one exchange: ModifyRequest then ModifyResponse; frag is the message id "m<k>"
@@ -49,6 +50,7 @@ import (
 	_ "github.com/google/martian/v3/method"
 	"github.com/google/martian/v3/parse"
 	_ "github.com/google/martian/v3/pingback"
+	_ "github.com/google/martian/v3/priority"
 	"github.com/google/martian/v3/proxyutil"
 	_ "github.com/google/martian/v3/querystring"
 	_ "github.com/google/martian/v3/status"
@@ -201,7 +203,8 @@ func (P) Nontrivial(ops []string, impl []string) bool {
 // configuration trees
 
 type node struct {
-	typ   string // L G F
+	typ   string // L G F P
+	prio  []int  // P: priority of each child
 	scope string
 	leaf  string   // status header method url qs failure ping nop fail
 	args  []string // decoded strings of the leaf / the condition
@@ -216,7 +219,7 @@ func unhexS(t string) (string, bool) {
 }
 
 var leafArity = map[string]int{"status": 1, "header": 2, "method": 1, "url": 4, "qs": 2, "failure": 1, "ping": 4, "nop": 0, "fail": 0, "watch": 1}
-var condArity = map[string]int{"header": 2, "url": 4, "method": 1}
+var condArity = map[string]int{"header": 2, "url": 4, "method": 1, "qs": 2}
 
 func takeArgs(toks []string, n int, raw bool) ([]string, []string, bool) {
 	if len(toks) < n {
@@ -286,6 +289,32 @@ func parseNode(toks []string, depth int) (*node, []string, bool) {
 			toks = rest
 		}
 		return n, toks, true
+	case "P":
+		if len(toks) < 1 {
+			return nil, nil, false
+		}
+		k, err := strconv.Atoi(toks[0])
+		if err != nil || k < 0 || k > 64 {
+			return nil, nil, false
+		}
+		toks = toks[1:]
+		for i := 0; i < k; i++ {
+			if len(toks) < 1 {
+				return nil, nil, false
+			}
+			pr, err := strconv.Atoi(toks[0])
+			if err != nil {
+				return nil, nil, false
+			}
+			c, rest, ok := parseNode(toks[1:], depth+1)
+			if !ok {
+				return nil, nil, false
+			}
+			n.prio = append(n.prio, pr)
+			n.kids = append(n.kids, c)
+			toks = rest
+		}
+		return n, toks, true
 	case "F":
 		if len(toks) < 1 {
 			return nil, nil, false
@@ -333,6 +362,12 @@ func (n *node) tokens() []string {
 	case "G":
 		out = append(out, b01(n.agg), strconv.Itoa(len(n.kids)))
 		for _, k := range n.kids {
+			out = append(out, k.tokens()...)
+		}
+	case "P":
+		out = append(out, strconv.Itoa(len(n.kids)))
+		for i, k := range n.kids {
+			out = append(out, strconv.Itoa(n.prio[i]))
 			out = append(out, k.tokens()...)
 		}
 	case "F":
@@ -412,8 +447,18 @@ func (n *node) json() interface{} {
 			ms = append(ms, k.json())
 		}
 		body["modifiers"] = ms
+	case "P":
+		name = "priority.Group"
+		ms := []interface{}{}
+		for i, k := range n.kids {
+			ms = append(ms, map[string]interface{}{"priority": n.prio[i], "modifier": k.json()})
+		}
+		body["modifiers"] = ms
 	case "F":
 		switch n.cond {
+		case "qs":
+			name = "querystring.Filter"
+			body["name"], body["value"] = n.args[0], n.args[1]
 		case "header":
 			name = "header.Filter"
 			body["name"], body["value"] = n.args[0], n.args[1]
@@ -796,7 +841,7 @@ func project(n *node, req bool) (*onode, bool) {
 	}
 	o := &onode{n: n, pending: true}
 	switch n.typ {
-	case "G":
+	case "G", "P":
 		for _, k := range n.kids {
 			ko, ok := project(k, req)
 			if !ok {
@@ -896,6 +941,10 @@ func condHolds(n *node, m *msg, req bool) bool {
 		return !urlDiffers(n.args, m, false)
 	case "method":
 		return strings.EqualFold(m.method, n.args[0])
+	case "qs":
+		vals, _ := url.ParseQuery(m.qry)
+		vs, ok := vals[n.args[0]]
+		return ok && (n.args[1] == "" || contains(vs, n.args[1]))
 	}
 	return false
 }
@@ -939,6 +988,17 @@ func evaluate(o *onode, m *msg, req bool, hits *[]evalHit) bool {
 			}
 		}
 		return failed
+	case "P":
+		// priority.Group implements neither verify interface: the verify and reset walks of its parent
+		// skip it, so nothing below it is ever reported (or reset). It returns the first error of its
+		// children, i.e. an error iff one of them returns one.
+		var hidden []evalHit
+		for _, k := range o.kids {
+			if evaluate(k, m, req, &hidden) {
+				return true
+			}
+		}
+		return false
 	case "F":
 		if condHolds(o.n, m, req) {
 			return evaluate(o.kids[0], m, req, hits)
@@ -953,6 +1013,9 @@ func (o *onode) walk(f func(*onode)) {
 		return
 	}
 	f(o)
+	if o.n.typ == "P" {
+		return // nothing below a priority.Group is visible to the verify and reset walks
+	}
 	for _, k := range o.kids {
 		k.walk(f)
 	}
@@ -1503,6 +1566,7 @@ func (e *ex) concurrent(seed uint64, withResets bool) core.Result {
 	if f, sig := verdict(msgs, full, full, "query at quiescence"); f != "" {
 		return core.Result{Impl: "conc", Fail: f, Sig: sig}
 	}
+	res := core.Result{Impl: "conc"}
 	if !withResets {
 		// exact totals: ledger before the phase + every unmet evaluation of the phase
 		for g := range plan {
@@ -1513,6 +1577,25 @@ func (e *ex) concurrent(seed uint64, withResets bool) core.Result {
 		if f, sig := e.or.check(msgs); f != "" {
 			return core.Result{Impl: "conc", Fail: "totals at quiescence: " + f, Sig: sig}
 		}
+		// linearisability against the model (Props/C13/Conc.lean, batch_linearisable): the report at
+		// quiescence is, as a multiset, the report of the sequential model after the same exchanges in
+		// any order; the model gets them goroutine by goroutine and both sides sort the report
+		sorted := append([]string{}, msgs...)
+		sort.Strings(sorted)
+		hs := make([]string, len(sorted))
+		for i, s := range sorted {
+			hs[i] = core.HexS(s)
+		}
+		sort.Strings(hs)
+		res.Impl = strings.Join(append([]string{"conc", strconv.Itoa(len(hs))}, hs...), " ")
+		mo := []string{"concq", strconv.Itoa(concG * concK)}
+		for g := range plan {
+			for _, p := range plan[g] {
+				mo = append(mo, strings.Split(p.m.op(), " ")[1:]...)
+			}
+		}
+		res.ModelOp = strings.Join(mo, " ")
+		core.Count("conc:quiescent-report-compared-with-model")
 	}
 	if code := im.reset(); code != 204 {
 		return core.Result{Impl: "conc", Fail: "reset handler answered " + strconv.Itoa(code), Sig: "c13:handler"}
@@ -1526,5 +1609,5 @@ func (e *ex) concurrent(seed uint64, withResets bool) core.Result {
 	if _, r := e.checkedQuery(); r.Fail != "" {
 		return core.Result{Impl: "conc", Fail: "after the final reset: " + r.Fail, Sig: r.Sig}
 	}
-	return core.Result{Impl: "conc"}
+	return res
 }
